@@ -9,6 +9,8 @@ from .subject import Subject
 from .ops_array import colres, mcol, df_of_row, ragged_row
 
 _births = []
+_dtype_mismatches = []
+_dtype_bindings = [0]
 
 
 @contextlib.contextmanager
@@ -16,11 +18,22 @@ def birth_watch(ctx):
     """record every value bound to NestedExtensionArray._chunked_array while the block runs"""
     orig = NestedExtensionArray.__setattr__
     _births.clear()
+    _dtype_mismatches.clear()
+    _dtype_bindings[0] = 0
 
     def watch(self, name, value):
         if name == "_chunked_array" and len(_births) < 200000:
             _births.append(value)
         orig(self, name, value)
+        if name == "_dtype":
+            # the dtype an array announces is bound right after its storage: it must describe THAT storage
+            _dtype_bindings[0] += 1
+            try:
+                st = self._chunked_array.type
+                if not value.pyarrow_dtype.equals(st) and len(_dtype_mismatches) < 20:
+                    _dtype_mismatches.append({"announced": str(value.pyarrow_dtype), "stored": str(st)})
+            except AttributeError:
+                pass
     NestedExtensionArray.__setattr__ = watch
     try:
         yield
@@ -54,7 +67,10 @@ def report_births(ctx):
         ctx.case("birth", {"phys": phys}, {"ok": {"wf": hyp["wf"], "rect": hyp["rect"]}}, None, {"ok": {"wf": True, "rect": True}},
                  hyp=hyp, features=("birth", f"chunks={min(hyp['nchunks'], 3)}"), spec_ok=ok,
                  nontrivial=len(a["col"]["rows"]) > 0)
-    ctx.births = {"bindings_observed": total, "distinct_storages_judged": checked}
+    ctx.case("birth.dtype_describes_storage", {"dtype_bindings_observed": _dtype_bindings[0]},
+             {"ok": {"mismatches": list(_dtype_mismatches)}}, None, {"ok": {"mismatches": []}}, features=("birth", "dtype"),
+             nontrivial=_dtype_bindings[0] > 0)
+    ctx.births = {"bindings_observed": total, "distinct_storages_judged": checked, "dtype_bindings_observed": _dtype_bindings[0]}
     _births.clear()
 
 
@@ -387,3 +403,48 @@ def case_views_of_accepted_windows(ctx):
         ok = ("err" in real and not rect) or ("ok" in real and real["ok"]["agree"])
         ctx.case(f"views.accepted_windows.{nm}", {"parent_lens": lens, "ty": t0}, real, None, None,
                  features=("accepted_windows", nm, f"rect={rect}"), spec_ok=ok, nontrivial=sum(lens) > 0)
+
+
+
+def case_same_names_other_units(ctx):
+    """columns with the SAME field names whose element types differ only in a parameter (the unit of a timestamp),
+    made one after the other in one process through several entry points: each announces its own element types,
+    shows them in the flat view, and stores what it announces"""
+    from nested_pandas.series.packer import pack_lists, pack_flat
+    rng = ctx.rng
+    units = ["ns", "us", "ms", "s"]
+    rng.shuffle(units)
+    names = rng.choice([("t", "v"), ("a", "b"), ("time", "flux")])
+    for unit in units[:rng.randint(2, 4)]:
+        tt = pa.timestamp(unit)
+        n = rng.randint(1, 3)
+        lens = [rng.randint(0, 2) for _ in range(n)]
+        k = sum(lens)
+        offs = pa.array(np.concatenate([[0], np.cumsum(lens)]).astype(np.int32))
+        tvals = pa.array([rng.randint(0, 10 ** 6) for _ in range(k)], type=pa.int64()).cast(tt)
+        vvals = pa.array([rng.randint(-5, 5) for _ in range(k)], type=pa.int64())
+        st = pa.StructArray.from_arrays([pa.ListArray.from_arrays(offs, tvals), pa.ListArray.from_arrays(offs, vvals)], names=list(names))
+        entry = rng.choice(["constructor", "pack_lists", "pack_flat", "series_dtype"])
+
+        def make():
+            if entry == "constructor":
+                return pd.Series(NestedExtensionArray(st))
+            if entry == "series_dtype":
+                return pd.Series(st, dtype=NestedDtype(st.type))
+            if entry == "pack_lists":
+                return pack_lists(pd.DataFrame({nm: pd.Series(st.field(nm), dtype=pd.ArrowDtype(st.field(nm).type)) for nm in names}))
+            flat = pd.DataFrame({names[0]: pd.Series(tvals, dtype=pd.ArrowDtype(tt)), names[1]: pd.Series(vvals, dtype=pd.ArrowDtype(pa.int64()))},
+                                index=np.repeat(np.arange(n), lens))
+            return pack_flat(flat)
+
+        def probe():
+            ser = make()
+            ext = ser.array
+            flat = ser.nest.to_flat()
+            return {"announced_is_stored": bool(ext.dtype.pyarrow_dtype.equals(ext.chunked_array.type)),
+                    "announced_element_type": str(ext.dtype.pyarrow_dtype.field(names[0]).type.value_type),
+                    "series_dtype_is_array_dtype": bool(ser.dtype == ext.dtype),
+                    "flat_element_type": str(flat[names[0]].dtype.pyarrow_dtype) if len(flat.columns) else None}
+        ctx.case(f"entry.same_names_other_units.{entry}", {"unit": unit, "names": list(names), "lens": lens}, call_real(probe), None,
+                 {"ok": {"announced_is_stored": True, "announced_element_type": str(tt), "series_dtype_is_array_dtype": True,
+                         "flat_element_type": str(tt)}}, features=("same_names_other_units", entry, unit))
